@@ -11,8 +11,10 @@ ENGINES = [
      "kind_free_text": "affine x parity abstract domain for centre/offset expressions; decides //2, ceil(/2), floor(/2) identities for all lengths by enumerating parity classes"},
     {"name": "KERNEL", "path": "sa/domains/kernel.py", "serves_properties": ["C01", "C02", "C03", "C05", "C06"],
      "kind_free_text": "symbolic vectors/outer matrices over index atoms; DFT and chirp-Z kernels become canonical rational functions compared with the textbook kernel per axis"},
-    {"name": "ORIGIN", "path": "sa/domains/origin.py", "serves_properties": ["C01", "C02"],
+    {"name": "ORIGIN", "path": "sa/domains/origin.py", "serves_properties": ["C01", "C02", "C13"],
      "kind_free_text": "origin/phase-ramp typestate of fftshift/ifftshift/fft2/ifft2 pipelines per parity class"},
+    {"name": "CACHE-b", "path": "sa/domains/cachestate.py", "serves_properties": ["C12"],
+     "kind_free_text": "typestate of lazily cached coordinate arrays: versions of shape/scale/origin; inductive invariant over all mutators"},
     {"name": "INTERP", "path": "sa/core/interp.py", "serves_properties": ["C17"],
      "kind_free_text": "abstract interpreter over the Python subset prysm uses; pluggable domains; path enumeration; abstract inlining of resolved prysm callees"},
 ]
@@ -72,8 +74,21 @@ CLAIMS["C06"] = {
     "note": KTRUST + "adjoint of a matrix triple product and of a composition; NORM differentiation rules for exp/log/arctan; real-gradient convention (2 Ibar E).",
 }
 
+CLAIMS["C12"] = {
+    "engine": "CACHE-b",
+    "technique": "static analysis: typestate abstract interpretation of every mutator and lazy getter of RichData/Interferogram over versioned abstract values (shape version, NORM scale, origin version); inductive invariant over the method set covers all histories; NORM/taint rule for the NaN-aware statistics; axis-provenance rule for the crop slices",
+    "text": "Decides for EVERY sequence of public mutators and reads of x/y/r/t: each mutator (crop, pad, mask, fill, spike_clip, remove_piston/tiptilt/power, recenter, latcal, strip_latcal, filter, discovered from the source) and each lazy getter maps every coherent entry state (no cache / x,y cached / x,y,r,t cached) to a coherent state on every path: cached coordinates have the data's shape (re-sliced with the data's own index objects or regenerated), are spaced by the current dx, polar caches derive from the current Cartesian ones. Also: util.mean/pv/rms/Sa/std reduce only over array[isfinite] and equal their definitions (generic 3-sample array), Interferogram statistics delegate to them, remove_piston subtracts that mean; crop's bounding-box slices index the axis their statistics belong to. Not decided: idempotence of tilt/power removal, rms^2=std^2+mean^2, Sa<=std<=PV (values).",
+    "note": TRUST + "CACHE-b transfer functions incl. the shape-preserving whitelist (sa/domains/cachestate.py); summaries of make_xy_grid / cart_to_polar / pad2d.",
+}
+CLAIMS["C13"] = {
+    "engine": "ORIGIN",
+    "technique": "static analysis: ORIGIN typestate of the PSD pipeline per parity; NORM with uninterpreted fft/sum atoms for the normalisation; API-surface rule (library attribute uses vs installed NumPy/SciPy and the NumPy 1.x/2.x name sets, guard-aware); def-use rules for integration spacings and the RMS rescale order",
+    "text": "Decides: every NumPy/SciPy name used by interferogram/fttools/coordinates/util exists in the installed library and in NumPy 1.x or sits under an AttributeError/hasattr guard; the PSD's DC bin coincides with the zero of forward_ft_unit for odd and even lengths; psd == |fft2(h w)|^2 dx^2/sum(w^2) (GH_FFT power normalisation, hence Parseval with df=1/(N dx)); ux/uy come from the column/row counts and are broadcast as (rows=y, cols=x); the band mask keeps [flow, fhigh] and each axis is integrated with its own frequency step; a synthetic surface is masked, then measured with the NaN-aware rms, then scaled by requested/measured. Not decided: band additivity/monotonicity to round-off and the trapezoid end weights.",
+    "note": TRUST + "ORIGIN typestate; the installed NumPy/SciPy API surface (read by importing those libraries, not prysm); frozen list of names new in NumPy 2.x.",
+}
+
 NOT_APPLICABLE = {
     "C11": "index bijections are float sqrt/ceil algebra on the index; their failure mode is a rounding event at particular j and the deciding step named by the property (exhaustive j <= 1e5) is execution; no finite static abstraction of j decides it (DESIGN.md section 4, C11)",
 }
-for _p in ("C07 C08 C09 C10 C12 C13 C14 C15 C16 C18 C19").split():
+for _p in ("C07 C08 C09 C10 C14 C15 C16 C18 C19").split():
     NOT_APPLICABLE[_p] = "check not delivered yet in this revision of /verif (design in DESIGN.md section 4); will be claimed only through the structural clauses named there once its rule module exists"
